@@ -21,6 +21,29 @@ HOOKS = {
 K_TRUST = ["Kani 0.68.0 (its model of Rust semantics and of the standard library), CBMC 6.11.0, cadical"]
 
 PROPS = {
+    "C17": {
+        "bin": "c17",
+        "compile_assert_bin": "c17_sendsync",
+        "explanation": "History independence in mode O: for every history of up to 3 (4) in-between calls drawn from {single queries at other abscissae, scalar query, batch, out-of-range query returning Err, wrongly shaped buffer call "
+                       "whose panic is caught, correct buffer call} on one real interpolator, the first query q1 (a symbol: every non-NaN double) repeated afterwards through interp, interp_into, interp_scalar and as first batch element "
+                       "returns the same recorded term as the first call (term identity, else z3); all data are symbols. Compile-time half: a binary instantiating `T: Send + Sync` for owned, view and shared storage of every strategy - "
+                       "its failure to compile is reported as the violation. Concurrent schedules are NOT decided.",
+        "trusted_base": O_TRUST + ["rustc's auto-trait inference for the Send + Sync assertions"],
+        "technique": "symbolic execution of enumerated call histories on one interpolator with a symbolic repeated query; equality of answers by term identity / z3 QF_FP+UF; compile-time Send + Sync assertions",
+        "level_text": "Bounded symbolic model checking over all histories of length <= 3 (quick) / 4 (thorough) of 6-7 call kinds x 4 (7) interpolators with all data and the repeated query symbolic: catches lookup caches, memoised last interval, scratch buffers reused across calls, state left behind by failed or panicked calls.",
+        "level_note": "Trusted: engine S, z3, rustc. The `schedules` part of the quantifier (other threads querying concurrently) is outside: neither engine models threads; only Send + Sync is established (at compile time).",
+    },
+    "C18": {
+        "bin": "c18",
+        "explanation": "Mode O with a symbolic (recording / failing) custom strategy for Interp1D and Interp2D, generic over the declared minimum 0..3 (4): on every path where the strategy's build ran, z3 proves that the path condition at that "
+                       "moment implies the received axes are strictly increasing (all IEEE values) and the lengths match and reach the minimum; interp_into receives exactly the caller's query terms, in order, with targets of the data shape minus "
+                       "the interpolated axes, from all five entry points; failure injection in build and at every call index is a free boolean (each failure schedule is a path) and the error reaches the caller with the same variant and message; "
+                       "index_point returns (axis[i], data[i]) as term identities and is_in_range is decided against the closed-range test.",
+        "trusted_base": O_TRUST,
+        "technique": "symbolic execution with a recording strategy whose failures are solver booleans; z3 QF_FP for 'validated before strategy.build' and is_in_range; term identity for pass-through of queries, targets and errors",
+        "level_text": "Bounded symbolic model checking over 210 (more thorough) configurations x all failure schedules x all axis / data / query values: the documented guarantees of the strategy traits hold for every user-defined strategy that behaves like the recording one.",
+        "level_note": "Trusted: engine S, z3. Data ranks <= 4, minimum <= 4, batches <= 3. Strategies that panic are outside.",
+    },
     "C19": {
         "bin": "c19",
         "engine": "S+K",
